@@ -4,14 +4,14 @@
  'clauses': 'LEXICAL part, for every text (object of arbitrary exact size up to 2^30, arbitrary bytes), the real igris_atou32 / igris_atou64 / hex2half / local_pow inlined: co-simulation with the grammar [+-]d*[.d*][(e|E)[+-]d+]: digits consumed exactly where the grammar has them, *pend = end of the literal (nptr when there is none), nothing stored through a NULL pend, no read outside the characters a parser has to inspect, result not NaN, sign of the result == sign of the literal, no literal => 0, text not modified, no signed overflow in local_pow.  On the unchanged tree nearly every input lies in one of the six known-finding regions (see findings.json): what is proved outright is the behaviour on "-" followed by neither a digit nor a point, and that nothing outside the regions fails',
  'inject': [
    {'file': 'igris/util/numconvert.c', 'func': 'igris_atof32', 'ghost': 'spec_atof32_begin(KF_C12_atof32_gate, KF_C12_atof32_end);', 'at': 'func-begin'},
-   {'file': 'igris/util/numconvert.c', 'func': 'igris_atou32', 'loop': 0, 'expect': 'igris_isxdigit',
+   {'file': 'igris/util/numconvert.c', 'func': 'igris_atou32', 'loop': 0, 'expect': 'for (char c',
     'assigns': 'buf, c, res, g_i, g_nd, g_hexseen',
     'invariants': ['buf == (const char *)g_t + g_i', 'g_i < g_n', 'g_nd <= g_i', 'g_i == g_nd + g_sgn',
                    'g_nd > 0 ==> (SPEC_ISDIGIT(g_t[g_i - 1]) || SPEC_ISHEXLETTER(g_t[g_i - 1]))', '(g_nd == 0 && g_sgn == 0) ==> SPEC_ISDIGIT(g_t[0])'],
     'decreases': 'g_n - g_i'},
    {'file': 'igris/util/numconvert.c', 'func': 'igris_atou32', 'ghost': 'spec_atof32_int_step(KF_C12_atof32_hexdigit);', 'at': 'body-begin', 'loop': 0},
    {'file': 'igris/util/numconvert.c', 'func': 'igris_atof32', 'ghost': 'spec_atof_point();', 'at': 'before', 'anchor': "if (*str == '.')"},
-   {'file': 'igris/util/numconvert.c', 'func': 'igris_atou64', 'loop': 0, 'expect': 'igris_isxdigit',
+   {'file': 'igris/util/numconvert.c', 'func': 'igris_atou64', 'loop': 0, 'expect': 'for (char c',
     'assigns': 'buf, c, res, g_i, g_nf, g_hexseen',
     'invariants': ['buf == (const char *)g_t + g_i', 'g_i < g_n', 'g_dot', 'g_nd <= g_i', 'g_nf <= g_i', 'g_i == g_nd + g_nf + 1 + g_sgn', 'g_nf <= 18 ==> res < SPEC_POW10(g_nf)',
                    'g_nf > 0 ==> (SPEC_ISDIGIT(g_t[g_i - 1]) || SPEC_ISHEXLETTER(g_t[g_i - 1]))'],
